@@ -595,6 +595,9 @@ class Exec:
                 old = self.read(loc, st, s) if loc else Unknown('incdec')
                 lo = as_lin(old)
                 new = (lo + Lin.const(1 if op == '++' else -1)) if lo is not None else Unknown('incdec')
+                if lo is None and hasattr(self.dom, 'step'):
+                    stepped = self.dom.step(old, 1 if op == '++' else -1)       # domain values that can be stepped (pointers into a block)
+                    if stepped is not None: new = stepped
                 self.write(loc, new, st, n)
                 return old if d.get('postfix') else (Ref(loc) if loc else new)
             if op == '!':
